@@ -65,8 +65,8 @@ BOp == \/ \E a \in Slots, n \in 0..2 : New(a, n)
        \/ \E a \in Slots, it \in Items, i \in 1..MaxBins : Add(a, it, i)
        \/ \E a, b \in Slots : Copy(a, b)
        \/ \E a \in Slots : Sort(a)
-       \/ \E a \in Slots, n \in 0..1 : AddEmpty(a, n)
-       \/ \E a \in Slots, n \in 0..1 : RemoveLast(a, n)
+       \/ \E a \in Slots, n \in 0..2 : AddEmpty(a, n)
+       \/ \E a \in Slots, n \in 0..2 : RemoveLast(a, n)
        \/ \E a, b \in Slots : Concat(a, b)
        \/ \E a, b \in Slots, i, j \in 1..MaxBins : Combine(a, i, b, j)
 BNext == BOp /\ UNCHANGED keep
